@@ -186,7 +186,7 @@ let check_sep fails what t lo hi elo (sep_hex : string) (x : (string * string) l
   else begin
     (match get "sv" with
      | "panic" -> fail "separator is not decodable by from_bytes (panic)"
-     | "missing" | "none" | "na" -> fail "separator value missing"
+     | "missing" -> fail "separator value missing"   (* NB: "na" is a value: the u8 10 *)
      | svs ->
         let sv = parse_val svs in
         if not (wt t sv) then fail ("separator decodes to a value that is not of the type: " ^ svs)
